@@ -113,15 +113,11 @@ where
         use crate::util::Consume;
 
         tokio::select! {
-            tag = self.flow_state.consume(1) => {
-                // link-credit is defined as
-                // "The current maximum number of messages that can be handled
-                // at the receiver endpoint of the link"
+            // A detach that the peer has already sent is looked at first: with credit
+            // available both branches are ready, and sending on a link the peer has
+            // detached would lose the message and leave the detach unanswered.
+            biased;
 
-                // Draining should already set the link credit to 0, causing
-                // sender to wait for new link credit
-                Ok(tag)
-            },
             frame = detached => { // cancel safe
                 match frame {
                     // If remote has detached the link
@@ -156,6 +152,15 @@ where
                         }
                     }
                 }
+            },
+            tag = self.flow_state.consume(1) => {
+                // link-credit is defined as
+                // "The current maximum number of messages that can be handled
+                // at the receiver endpoint of the link"
+
+                // Draining should already set the link credit to 0, causing
+                // sender to wait for new link credit
+                Ok(tag)
             }
         }
     }
